@@ -169,9 +169,10 @@ def extract_state(model, it_facts, fi, self_obj, env, schema, mro_fn, max_len=40
 def build(desc):
     modname = desc["function"].split("#")[0].split(":")[0]
     mod = importlib.import_module("atomica." + modname)
+    cmod = importlib.import_module("atomica." + desc["class_module"]) if desc.get("class_module") else mod
     objs = {}
     for oid, o in desc["objects"].items():
-        cls = getattr(mod, o["class"]) if o["class"] else object
+        cls = (getattr(cmod, o["class"], None) or getattr(mod, o["class"])) if o["class"] else object
         objs[oid] = object.__new__(cls)
 
     def val(v):
